@@ -90,19 +90,24 @@ def judgeCase (_k : Nat) (lines : List String) : Verdict := Id.run do
       vio := vio ++ [("C40.sql.empty-part-unreadable", s!"SQL-backed-download-fails-with-part-not-found-after-{n}-of-{resolved.length}-bytes-at-an-empty-part")]
     else
       vio := vio ++ [("C40.sql.full-content-not-delivered", s!"SQL-backed-download-delivered-{n}-of-{resolved.length}-bytes,{term}")]
+  let holdL := find "hold "
+  let held := kv holdL "held" == "1"
+  let holdOp := holdL.getD 1 ""
   let blocked := (lines.filter fun l => l.startsWith "step" && l.endsWith "blocked").length
   let gone := (states.filter (· != "same")).length
   let stepStats := script.map fun s => ("step_" ++ s, 1)
   return {
     diverge := div, violations := vio,
-    nontrivial := !script.isEmpty && (gone > 0 || stack == "sql"),
-    fingerprint := fpLines [String.intercalate " " cfg, String.intercalate " " partsL, term, toString n],
+    nontrivial := (!script.isEmpty || held) && (gone > 0 || stack == "sql" || held),
+    fingerprint := fpLines [String.intercalate " " cfg, String.intercalate " " holdL, String.intercalate " " partsL, term, toString n],
     stats := addStats [("stack_" ++ stack, 1), ("ver_" ++ kv cfg "ver", 1), ("term_" ++ (if term == "eof" then "eof" else "error"), 1),
       ("interrupted_mid_stream", if k > 0 && k < resolved.length then 1 else 0),
       ("parts_gone", gone), ("writer_blocked_by_reader", blocked),
+      ("writer_held_in_commit_window", if held then 1 else 0),
+      ("held_writer_on_another_object", if held && holdOp.startsWith "other" then 1 else 0),
       ("read_after_error_delivered_bytes", if natOf (kv fin "after") > 0 && term != "eof" then 1 else 0),
       ("ranged", if kv cfg "range" == "~" then 0 else 1)] stepStats,
-    samples := [String.intercalate " " cfg ++ " => " ++ s!"n={n} {term} parts={partsL.getD 1 ""}"]
+    samples := [String.intercalate " " cfg ++ " " ++ String.intercalate " " holdL ++ " => " ++ s!"n={n} {term} parts={partsL.getD 1 ""}"]
   }
 
 def main : IO Unit := runDriver judgeCase
